@@ -124,6 +124,45 @@ def log2BoundsNatNoStd (W : Nat) (x : Nat) : Float32 × Float32 :=
     let adjust : Float32 := Float32.ofBits 0x34800000
     ((hlb + remBits) * ((1 : Float32) - adjust), (hub + remBits) * ((1 : Float32) + adjust))
 
+-- ---------------------------------------------------------------- primitive floats
+
+/-- decode an IEEE bit pattern (`mbits` mantissa bits, `ebits` exponent bits): `none` for NaN,
+    `some none` for ±inf, `some (some (m, e))` for the finite value `±m·2^e` (`FloatEncoding::decode`) -/
+def ieeeDecode (mbits ebits : Nat) (bits : Nat) : Option (Option (Nat × Int)) :=
+  let m := bits % 2 ^ mbits
+  let e := (bits / 2 ^ mbits) % 2 ^ ebits
+  let bias : Int := 2 ^ (ebits - 1) - 1
+  if e = 2 ^ ebits - 1 then (if m ≠ 0 then none else some none)
+  else if e = 0 then some (some (m, 1 - bias - mbits))
+  else some (some (m + 2 ^ mbits, (e : Int) - bias - mbits))
+
+/-- `impl_log2_bounds_for_float!(f32 f64)`, feature std: `next_down/next_up` of `self.abs().log2() as f32`.
+    `isF64` selects the type; the f64 logarithm is rounded to f32 by the cast. -/
+def log2BoundsFloatPrimStd (isF64 : Bool) (bits : Nat) : Option (Float32 × Float32) :=
+  let dec := if isF64 then ieeeDecode 52 11 bits else ieeeDecode 23 8 bits
+  match dec with
+  | none => none                                           -- assert!(!self.is_nan())
+  | some none => some (Float32.ofBits 0x7f800000, Float32.ofBits 0x7f800000)
+  | some (some (m, _)) =>
+    if m = 0 then some (negInf, negInf)
+    else
+      let l : Float32 :=
+        if isF64 then (Float.ofBits (UInt64.ofNat (bits % 2 ^ 63))).log2.toFloat32
+        else (Float32.ofBits (UInt32.ofNat (bits % 2 ^ 31))).log2
+      some (nextDown l, nextUp l)
+
+/-- the same, feature std off: bounds of the integer mantissa (table estimator) plus the exponent -/
+def log2BoundsFloatPrimNoStd (isF64 : Bool) (bits : Nat) : Option (Float32 × Float32) :=
+  let dec := if isF64 then ieeeDecode 52 11 bits else ieeeDecode 23 8 bits
+  match dec with
+  | none => none                                           -- panic!("calling log2 on nans is forbidden!")
+  | some none => some (Float32.ofBits 0x7f800000, Float32.ofBits 0x7f800000)
+  | some (some (m, e)) =>
+    if m = 0 then some (negInf, negInf)
+    else
+      let (lb, ub) := log2BoundsPrimNoStd m
+      some (lb + Float32.ofInt e, ub + Float32.ofInt e)
+
 -- ---------------------------------------------------------------- exact enclosure test
 
 /-- value of a finite f32 bit pattern as `(negative?, mantissa, exponent)`: `± mant · 2^exp`;
